@@ -112,14 +112,14 @@ def firstMismatch : List Item → List Item → String
         | .lig c f og lb rb, .lig c' f' og' lb' rb' =>
           if c = c' ∧ f = f' ∧ og = og' ∧ lb = lb' ∧ rb ≠ rb' then (if rb then "lig-rb-flag-gained" else "lig-rb-flag-lost")
           else if c = c' ∧ f = f' ∧ og = og' ∧ lb ≠ lb' then "lig-lb-flag"
-          else if og.isEmpty ∧ (rb ∨ lb) then "extra-boundary-lig" else "lig/lig"
+          else if og.isEmpty ∧ (rb ∨ lb) then (if lb then "extra-left-boundary-lig" else "extra-right-boundary-lig") else "lig/lig"
         | .lig _ _ og lb rb, _ =>
-          if og.isEmpty ∧ (rb ∨ lb) then "extra-boundary-lig" else s!"lig/{kindName i}"
+          if og.isEmpty ∧ (rb ∨ lb) then (if lb then "extra-left-boundary-lig" else "extra-right-boundary-lig") else s!"lig/{kindName i}"
         | _, _ => s!"{kindName o}/{kindName i}"
     | [] =>
       if o.isDisc then firstMismatch [] out
       else match o with
-        | .lig _ _ og lb rb => if og.isEmpty ∧ (rb ∨ lb) then "extra-boundary-lig" else "lig/end"
+        | .lig _ _ og lb rb => if og.isEmpty ∧ (rb ∨ lb) then (if lb then "extra-left-boundary-lig" else "extra-right-boundary-lig") else "lig/end"
         | _ => s!"{kindName o}/end"
   | i :: _, [] => s!"end/{kindName i}"
 
